@@ -82,9 +82,18 @@ fn eval_name_inner(psl: &Psl, name: &str, compare: bool) -> (Vec<Finding>, &'sta
         let e1 = via_bound(&DEFAULT_PROVIDER, name);
         let e1d = via_object(&DEFAULT_PROVIDER, name);
         let tld = DEFAULT_PROVIDER.is_effective_tld(name);
-        (ps, e1, tld, e1m, e1d)
+        // the three ways to obtain a provider over the shipped table: the constant, new(), Default
+        let made = [public_suffix::PublicSuffixList::new(), <public_suffix::PublicSuffixList as Default>::default()];
+        let mut ctor = None;
+        for (i, p) in made.iter().enumerate() {
+            let got = (p.public_suffix(name).to_string(), via_bound(p, name), p.is_effective_tld(name));
+            if got != (ps.clone(), e1.clone(), tld) && ctor.is_none() {
+                ctor = Some((["PublicSuffixList::new()", "PublicSuffixList::default()"][i], got));
+            }
+        }
+        (ps, e1, tld, e1m, e1d, ctor)
     });
-    let (ps, e1, tld, e1m, e1d) = match r {
+    let (ps, e1, tld, e1m, e1d, ctor) = match r {
         Ok(x) => x,
         Err(p) => {
             fs.push(Finding::new(format!("kind=panic/site={}", par::panic_site(&p)), format!("lookup of {name:?} panicked: {p}"), case));
@@ -92,6 +101,9 @@ fn eval_name_inner(psl: &Psl, name: &str, compare: bool) -> (Vec<Finding>, &'sta
         }
     };
     let mut bad = |kind: &str, d: String| fs.push(Finding::new(format!("kind={kind}"), d, case.clone()));
+    if let Some((which, got)) = ctor {
+        bad("constructors-disagree", format!("{name:?}: DEFAULT_PROVIDER gives suffix {ps:?}, eTLD+1 {e1:?}, is_effective_tld {tld}; a provider from {which} gives {got:?}"));
+    }
     if e1m != e1 || e1d != e1 {
         bad("call-routes-disagree", format!("effective_tld_plus_one({name:?}): through a generic bound {e1:?}, method syntax {e1m:?}, trait object {e1d:?}"));
     }
